@@ -2,8 +2,8 @@ import OpcuaModel.Base.Loop
 import OpcuaModel.Model.Interop
 /-
   Driver for C37.
-    table                                      → <n> <row>;<row>;…   (rows `pol,mode,cbits,sbits,auth`, sorted)
-    connect <pol> <mode> <cbits> <sbits> <auth> → ok | fail:<stage>
+    table                                      → <n> <row>;<row>;…   (rows `pol,mode,cbits,sbits,auth,extra`, sorted)
+    connect <pol> <mode> <cbits> <sbits> <auth> <extraPol|-> → ok | fail:<stage>
     opnlen  <pol> <mode> <cbits> <sbits>        → <reqChunkLen> <reqSizeField> <respChunkLen> <respSizeField>
     pwlen   <pol> <sbits> <passwordBytes>       → <cipherLen> | none
 -/
@@ -18,15 +18,16 @@ def handle : List String → String
   | ["table"] =>
     let rows := (configTable.map Config.show).mergeSort (fun a b => decide (a ≤ b))
     s!"{rows.length} {";".intercalate rows}"
-  | ["connect", p, m, cb, sb, a] =>
-    match polIndex p, m.toNat?, cb.toNat?, sb.toNat?, authOf a with
-    | some i, some mode, some c, some s, some auth => (connect ⟨i, mode, c, s, auth⟩).name
-    | none, _, _, _, _ => Stage.unsupportedPolicy.name
-    | _, _, _, _, _ => "bad-op"
+  | ["connect", p, m, cb, sb, a, x] =>
+    let extra : Option (Option Nat) := if x = "-" then some none else (polIndex x).map some
+    match polIndex p, m.toNat?, cb.toNat?, sb.toNat?, authOf a, extra with
+    | some i, some mode, some c, some s, some auth, some ex => (connect ⟨i, mode, c, s, auth, ex⟩).name
+    | none, _, _, _, _, _ => Stage.unsupportedPolicy.name
+    | _, _, _, _, _, _ => "bad-op"
   | ["opnlen", p, m, cb, sb] =>
     match polIndex p, m.toNat?, cb.toNat?, sb.toNat? with
     | some i, some mode, some c, some s =>
-      let cfg : Config := ⟨i, mode, c, s, .anonymous⟩
+      let cfg : Config := ⟨i, mode, c, s, .anonymous, none⟩
       match opnRequest cfg, opnResponse cfg with
       | some q, some r => s!"{q.chunkLen} {q.sizeField} {r.chunkLen} {r.sizeField}"
       | _, _ => "none"
